@@ -42,6 +42,21 @@ theorem wf_form (g : List α) (asc : List (Chan α)) (P N Es : α) (p : List α)
   cases h
   exact ⟨hw.length, hw.getElem⟩
 
+/-- Which channels the loop switches off (the loop invariant, seen from outside): channel
+    `j` gets zero power exactly when its level `N/(Es·g_j)` is at or above the returned
+    water level. -/
+theorem wf_switched_off_iff (g : List α) (asc : List (Chan α)) (P N Es : α) (p : List α) (mu : α)
+    (hc : SortContract g asc) (hne : g ≠ []) (hg : ∀ x ∈ g, 0 < x)
+    (hP : 0 < P) (hN : 0 < N) (hEs : 0 < Es)
+    (hres : doWFWith asc g.length P N Es = .ok (p, mu)) :
+    ∀ (j : Nat) (hj : j < g.length) (hj' : j < p.length),
+      p[j] = 0 ↔ mu ≤ N / (Es * g[j]) := by
+  obtain ⟨p', mu', h, hw, _⟩ := doWFWith_isWaterFilling g asc P N Es hc hne hg hP.le hN hEs
+  rw [hres] at h
+  cases h
+  intro j hj hj'
+  rw [hw.getElem j hj hj', max_eq_left_iff, sub_nonpos]
+
 /-- Clause "the allocation is non-negative". -/
 theorem wf_nonneg (g : List α) (asc : List (Chan α)) (P N Es : α) (p : List α) (mu : α)
     (hc : SortContract g asc) (hne : g ≠ []) (hg : ∀ x ∈ g, 0 < x)
@@ -140,12 +155,26 @@ theorem wf_model_sort_admissible (g : List α) :
     SortContract g (argsortAsc g) ∧ doWF g = doWFWith (argsortAsc g) g.length :=
   ⟨argsortAsc_contract g, rfl⟩
 
-/-- The function the driver executes at core `Rat` instances *is* the `ℚ` instance of the
-    polymorphic model the theorems are about (same text, definitionally equal instances). -/
+/-- The function the driver executes (`doWFRat`: core `Rat` instances, elaborated without
+    Mathlib) *is* the `ℚ` instance (Mathlib's ordered-field instances) of the polymorphic
+    model the theorems are about. -/
 theorem wf_driver_instance (g : List ℚ) (P N Es : ℚ) :
-    doWF g P N Es
-      = @doWF Rat Rat.instAdd Rat.instSub Rat.instMul Rat.instDiv ⟨(0 : Rat)⟩ ⟨Nat.cast⟩
-          Rat.instLT inferInstance g P N Es := rfl
+    doWFRat g P N Es = doWF g P N Es := rfl
+
+/-- … hence the clauses hold for the very function the correspondence check executes
+    (the generic theorems instantiate at `doWFRat` up to definitional equality of the
+    `ℚ` instances). -/
+theorem wf_driver_covered (g : List ℚ) (P N Es : ℚ) (p : List ℚ) (mu : ℚ)
+    (hne : g ≠ []) (hg : ∀ x ∈ g, 0 < x) (hP : 0 < P) (hN : 0 < N) (hEs : 0 < Es)
+    (hres : doWFRat g P N Es = .ok (p, mu)) :
+    p.sum = P ∧ (∀ y ∈ p, 0 ≤ y) ∧ p = g.map (fun x => max 0 (mu - N / (Es * x))) := by
+  obtain ⟨p', mu', h, hw, _⟩ := doWFWith_isWaterFilling g (argsortAsc g) P N Es
+    (argsortAsc_contract g) hne hg hP.le hN hEs
+  have : doWFRat g P N Es = doWFWith (argsortAsc g) g.length P N Es := rfl
+  rw [this] at hres
+  rw [hres] at h
+  cases h
+  exact ⟨hw.sum, hw.nonneg, hw.form⟩
 
 omit [IsStrictOrderedRing α] in
 /-- Outside the quantifier (recorded behaviour, tied by the malformed-input stream):
